@@ -252,7 +252,7 @@ def correspondence(ctx):
 
 def templates(rng, n, span):
     """-> (name variants, positional python values, keyword python values): valid constructor calls on a region of `span` nt"""
-    pat = rng.choice(["BsaI_site", "BsmBI_site", "ATGC", "ATH", "GGTCTC", "4x2mer"])
+    pat = rng.choice(["BsaI_site", "BsmBI_site", "ATGC", "ATH", "GGTCTC", "4x2mer", "GC{2,4}A", "A[ATGC]{3,}TTT", "ATG.{3}TAA"])
     def dna(k, alphabet="ATGC"):
         return "".join(rng.choice(alphabet) for _ in range(k))
     T = [
